@@ -61,6 +61,8 @@ func hashWorker(args []string) error {
 			after = runtime.NumGoroutine()
 		}
 		switch {
+		case after > before && herr == nil:
+			fmt.Fprintf(out, "LEAK %d D %s\n", after-before, d) // the digest is still an observation (C04), the leak is C18's
 		case after > before:
 			fmt.Fprintf(out, "LEAK %d\n", after-before)
 		case herr != nil:
@@ -258,6 +260,11 @@ func hashCmd(args []string) error {
 		uni[v] = append(uni[v], hentry{'m', filepath.Join(base, "nope"), ""}, hentry{'m', filepath.Join(base, "no/such/file"), ""})
 		os.Symlink(filepath.Join(base, "gone"), filepath.Join(base, "dang"))
 		uni[v] = append(uni[v], hentry{'m', filepath.Join(base, "dang"), ""})
+		// entries that cannot even be inspected for reasons other than "does not exist": a symbolic link that points to itself,
+		// a path that runs through a regular file, a name longer than the file system allows
+		os.Symlink("loop", filepath.Join(base, "loop"))
+		uni[v] = append(uni[v], hentry{'m', filepath.Join(base, "loop"), ""}, hentry{'m', filepath.Join(base, "a", "x"), ""},
+			hentry{'m', filepath.Join(base, strings.Repeat("n", 300)), ""})
 		// a symlink to a regular file reads as that file's content under the link's path
 		os.Symlink(filepath.Join(base, "a"), filepath.Join(base, "lnk"))
 		uni[v] = append(uni[v], hentry{'f', filepath.Join(base, "lnk"), contents[(0*(v+1)+v)%len(contents)]})
@@ -293,6 +300,13 @@ func hashCmd(args []string) error {
 	fail := func(prop, cs, detail string) {
 		st.OracleFail[prop]++
 		fmt.Fprintf(bo, "%s %s %s\n", prop, cs, detail)
+	}
+	// dg: the digest part of a result ("" when there is none)
+	dg := func(res string) string {
+		if i := strings.Index(res, "D "); i >= 0 {
+			return res[i:]
+		}
+		return ""
 	}
 	runCase := func(source string, list []hentry) string {
 		caseNo++
@@ -390,13 +404,13 @@ func hashCmd(args []string) error {
 			res := runCase("all-permutations", l)
 			if first == "" {
 				first = res
-			} else if res != first && strings.HasPrefix(res, "D ") && strings.HasPrefix(first, "D ") {
+			} else if dg(res) != dg(first) && dg(res) != "" && dg(first) != "" {
 				fail("C04", fmt.Sprintf("perm-group-%d", g), fmt.Sprintf("two orderings of the same list give %s and %s", first, res))
 			}
 		}
 		st.PermGroups++
 		// change sensitivity on this base list: remove one, add one, other content (other variant has other contents), rename
-		if strings.HasPrefix(first, "D ") {
+		if dg(first) != "" {
 			var regs []hentry
 			for _, e := range base {
 				if e.kind == 'f' {
@@ -413,13 +427,13 @@ func hashCmd(args []string) error {
 					}
 					minus = append(minus, e)
 				}
-				if res := runCase("remove-file", minus); res == first {
+				if res := runCase("remove-file", minus); dg(res) == dg(first) {
 					fail("C04", fmt.Sprintf("perm-group-%d", g), "removing a regular file left the digest unchanged")
 				}
 			}
 			extra := good(v)[r.Intn(len(good(v)))]
 			if extra.kind == 'f' {
-				if res := runCase("add-file", append(append([]hentry{}, base...), extra)); res == first {
+				if res := runCase("add-file", append(append([]hentry{}, base...), extra)); dg(res) == dg(first) {
 					fail("C04", fmt.Sprintf("perm-group-%d", g), "adding a regular file left the digest unchanged")
 				}
 			}
